@@ -1124,6 +1124,23 @@ func TestProp(t *testing.T) {
 		}
 	}
 	pairHistories("pairs-shared", scs, true, func(ai, chunk int) bool { return run.Thorough() || (ai+chunk)%3 == 0 })
+	// near-twin programs on the shared engine, exhaustively in both tiers: every ordered pair of
+	// twins x every pair of entries as A, B, A (the first render on the engine is A's)
+	var twins []combo
+	for _, cb := range scs {
+		if hasFeat(cb.p, "near-twin") {
+			twins = append(twins, cb)
+		}
+	}
+	for _, a := range twins {
+		for _, bb := range twins {
+			if a.p.Name == bb.p.Name {
+				continue
+			}
+			sa := Step{Prog: a.p.Name, Entry: a.entry}
+			each("twins-shared", Case{Shared: true, Steps: []Step{sa, {Prog: bb.p.Name, Entry: bb.entry}, sa}})
+		}
+	}
 	if ok {
 		rec.Exhaustive(fmt.Sprintf("all ordered pairs (A, B) of the %d applicable (program, entry) combinations of %d programs as history A, B, A on long-lived engines; every hazard program x entry x data variant probed 30+30 times; every (program, entry) through the data variants 0,1,0,2,1,0 on one engine", len(cs), len(named)))
 	}
